@@ -251,6 +251,10 @@ def parse_into_datetime(
     if isinstance(value, dt.date):
         if hasattr(value, 'hour'):
             ts = value
+            if ts.tzinfo is None or ts.tzinfo.utcoffset(ts) is None:
+                # A naive datetime is taken as UTC (that is how it is
+                # serialized); make it compare equal to its parsed form.
+                ts = ts.replace(tzinfo=pytz.utc)
         else:
             # Add a time component
             ts = dt.datetime.combine(value, dt.time(0, 0, tzinfo=pytz.utc))
